@@ -340,6 +340,11 @@ def run(ctx: Ctx, tier: str) -> Result:
         negated = inner is not test
         if gate and inner is gate[0] and (pol != negated):
             okg = True
+        # the answer of the budget check named first: `within_budget = self.check_var_count()` ... `if not within_budget: return False`
+        if gate and isinstance(inner, ast.Name) and (pol != negated):
+            lb_ = t.local_bindings(sf, inner.id)
+            if len(lb_) == 1 and lb_[0][0] == "assign" and lb_[0][1][1] is gate[0]:
+                okg = True
     if not gate:
         res.fail(Finding("C05.BUDGET", sf.qname, recs[0], sf.loc(recs[0]), "a variable is recorded without any budget check in the search consumer"))
         return res
@@ -348,6 +353,10 @@ def run(ctx: Ctx, tier: str) -> Result:
     else:
         res.fail(Finding("C05.BUDGET", sf.qname, recs[0], sf.loc(recs[0]), "a variable is recorded without the budget check holding"))
     stmt = paths.stmt_of(p, gate[0])
+    if isinstance(stmt, ast.Assign) and isinstance(stmt.targets[0], ast.Name):
+        # ... the decision is the `if` on that name
+        ifs_ = [n for n in t.nodes_in(sf, ast.If) if any(isinstance(x, ast.Name) and x.id == stmt.targets[0].id for x in ast.walk(n.test))]
+        stmt = ifs_[0] if len(ifs_) == 1 else stmt
     stop_ret = [n for n in ast.walk(stmt) if isinstance(n, ast.Return)] if isinstance(stmt, ast.If) else []
     if stop_ret and all(isinstance(r_.value, ast.Constant) and r_.value.value is False for r_ in stop_ret):
         res.ok("C05.BUDGET", {"exhausted budget -> consumer returns False": sf.loc(stop_ret[0])})
